@@ -83,7 +83,13 @@ class Univ:
     marked inexact and a `sat` is reported UNKNOWN (the bounded runs decide)."""
 
     def __init__(self, arity, inst):
-        self.arity, self.inst = arity, inst
+        self.arity, self._inst, self._cache = arity, inst, {}
+
+    def inst(self, *ts):
+        key = tuple(t.get_id() for t in ts)       # z3 terms are hash-consed: same id = same term
+        if key not in self._cache:
+            self._cache[key] = (self._inst(*ts), ts)     # (ts kept alive so that ids are not reused)
+        return self._cache[key][0]
 
 
 def register(p, u, exact):
@@ -117,19 +123,44 @@ def _index_consts(fs):
     return list(out.values())
 
 
+def _consts_of_sort(fs, sort):
+    seen, out = set(), {}
+
+    def walk(x):
+        if x.get_id() in seen:
+            return
+        seen.add(x.get_id())
+        if z3.is_const(x) and x.decl().kind() == z3.Z3_OP_UNINTERPRETED and x.sort() == sort:
+            out[str(x)] = x
+        for c in x.children():
+            walk(c)
+    for f in fs:
+        walk(f)
+    return list(out.values())
+
+
 def discharge_inst(pc, axioms, univ, inexact, goal, timeout):
-    """-> (status, model, secs): PROVED iff pc & axioms & instances & not goal is unsat"""
+    """-> (status, model, secs): PROVED iff pc & axioms & instances & not goal is unsat.
+    Instantiation terms: the index constants c of the goal and the path condition with c-1, c+1, and 0, 1 (T1); the Skolem
+    witnesses that only occur in axioms (definitions of any / all / != / 'not ascending') with their neighbours (T2).  One-place facts
+    are instantiated at T1 + T2, two-place facts at T1 x T1 and at all pairs of the constants themselves."""
     base = [*pc, *axioms, z3.Not(goal)]
-    consts = _index_consts(base)
-    terms = [z3.IntVal(0), z3.IntVal(1)]
-    for c in consts:
-        terms += [c, c - 1, c + 1]
+    c1 = _index_consts([*pc, z3.Not(goal)])
+    k1 = {str(c) for c in c1}
+    c2 = [c for c in _index_consts(axioms) if str(c) not in k1]
+    t1 = [z3.IntVal(0), z3.IntVal(1)]
+    for c in c1:
+        t1 += [c, c - 1, c + 1]
+    t2 = []
+    for c in c2:
+        t2 += [c, c - 1, c + 1]
+    pairs = [(x, y) for x in t1 for y in t1] + [(x, y) for x in c1 + c2 for y in c1 + c2 if not (str(x) in k1 and str(y) in k1)]
     inst = []
     for u in univ:
         if u.arity == 1:
-            inst += [u.inst(t) for t in terms]
+            inst += [u.inst(t) for t in t1 + t2]
         else:
-            inst += [u.inst(t1, t2) for t1 in terms for t2 in terms]
+            inst += [u.inst(x, y) for x, y in pairs]
     st, m, secs = solve(base + inst, timeout)
     if st == REFUTED and inexact:
         return UNKNOWN, None, secs
@@ -192,7 +223,11 @@ class LSeq(H):
             return z3.If(x < 0, z3.If(n + x < 0, 0, n + x), z3.If(x > n, n, x))
         start, stop = z3.simplify(norm(lo, z3.IntVal(0))), z3.simplify(norm(hi, n))
         m = z3.simplify(z3.If(stop > start, stop - start, 0))
-        return Custom(LSeq(m, lambda j: self.at(z3.simplify(start + j))))
+        out = LSeq(m, lambda j: self.at(z3.simplify(start + j)))
+        out.loop = out.slice_loop = self.slice_loop
+        return Custom(out)
+
+    slice_loop = None
 
     def binop(self, eng, p, op, b, node):
         if isinstance(op, ast.Add) and isinstance(b, Custom) and isinstance(b.h, LSeq):
@@ -228,6 +263,22 @@ class LSeq(H):
         p.pc += [j >= 0, j < self.n]
         return self.at(j)
 
+    loop = None      # proof-script hook (eng, p, stmt, seq) -> paths: how a `for` over THIS list is executed
+
+    def for_loop(self, eng, p, st):
+        if self.loop is None:
+            raise Unsupported(f"for over a symbolic list without a loop contract in {eng.cur_func} L{st.lineno}")
+        return self.loop(eng, p, st, self)
+
+    @staticmethod
+    def of_items(items):
+        def at(j):
+            v = items[-1]
+            for k in reversed(range(len(items) - 1)):
+                v = merge_v(j == k, items[k], v)
+            return v
+        return LSeq(len(items), at)
+
 
 def merge_v(c, a, b):
     """If(c, a, b) on values"""
@@ -246,6 +297,10 @@ def merge_v(c, a, b):
         return PyB(z3.If(c, a.z, b.z))
     if isinstance(a, Tup) and isinstance(b, Tup) and len(a.items) == len(b.items):
         return Tup([merge_v(c, x, y) for x, y in zip(a.items, b.items)], a.is_list)
+    if isinstance(a, Custom) and hasattr(a.h, "merge"):
+        return Custom(a.h.merge(c, b))
+    if a is b:
+        return a
     raise Unsupported("merge of " + type(a).__name__ + "/" + type(b).__name__)
 
 
@@ -441,7 +496,27 @@ def _same_key(a, b):
 
 
 class ListEngine(Engine):
-    """Engine + dict displays; obligations carry the universal facts known on their path"""
+    """Engine + dict displays; obligations carry the universal facts known on their path; `[x] + <symbolic list>`;
+    handlers["emptylist"] / ["dictcomp"] / ["float*"] (proof-script models of `[]`, dict comprehensions, float * int)"""
+
+    def e_List(self, e, p):
+        if not e.elts and "emptylist" in self.handlers:
+            return self.handlers["emptylist"](self, p, e)
+        return super().e_List(e, p)
+
+    def e_DictComp(self, e, p):
+        if "dictcomp" in self.handlers:
+            r = self.handlers["dictcomp"](self, p, e)
+            if r is not None:
+                return r
+        return super().e_DictComp(e, p)
+
+    def binop(self, op, a, b, p, node):
+        if isinstance(op, ast.Add) and isinstance(a, Tup) and a.is_list and a.items and isinstance(b, Custom) and isinstance(b.h, LSeq):
+            return LSeq.of_items(a.items).binop(self, p, op, b, node)
+        if isinstance(op, ast.Mult) and isinstance(a, Opaque) and isinstance(a.tag, tuple) and a.tag[:1] == ("float",) and "float*" in self.handlers:
+            return self.handlers["float*"](self, p, a.tag[1], b, node)
+        return super().binop(op, a, b, p, node)
 
     def oblige(self, p, name, kind, goal, node=None, note=""):
         super().oblige(p, name, kind, goal, node, note)
@@ -703,7 +778,7 @@ def _model_fn(mdl):
     return mf
 
 
-def run_sorted(funcs, timeout, n_rg, m_sel, collapsed="symbolic"):
+def run_sorted(funcs, timeout, n_rg, m_sel, collapsed="symbolic", paths_only=False):
     res = Results()
     mdl = Model(n_rg, m_sel, collapsed)
     sink = []
@@ -733,9 +808,18 @@ def run_sorted(funcs, timeout, n_rg, m_sel, collapsed="symbolic"):
     p.pc += [mdl.n_rg >= 0, mdl.m_sel >= 0]
     outs = eng.run("sorted_partitioned_columns", p, [Custom(pf), Custom(filters)])
     mf = _model_fn(mdl)
+    if paths_only:
+        return res, (0, 0, sink)
+    outside = Results()      # index obligations once more under "no list is the collapsed [None]" (outside the known finding's region)
     for ob in eng.oblig:
         st, m, secs = discharge_inst(ob.pc, ob.axioms, ob.univ, ob.inexact, ob.goal, timeout)
-        res.add("sorted_columns." + ob.name.split(".", 1)[-1], st, mf(m) if m is not None else None, secs, "z3", ob.note or ob.kind)
+        nm = "sorted_columns." + ob.name.split(".", 1)[-1]
+        res.add(nm, st, mf(m) if m is not None else None, secs, "z3", ob.note or ob.kind)
+        if "index_in_range" in nm and collapsed == "symbolic":
+            cols = _consts_of_sort([*ob.pc, ob.goal], ColS)
+            hyp = [z3.Not(COLLAPSED[s_](c)) for s_ in COLLAPSED for c in cols]
+            outside.add(nm, discharge_inst([*ob.pc, *hyp], ob.axioms, ob.univ, ob.inexact, ob.goal, timeout)[0])
+    res.outside = outside
     a, b, j = z3.Int("ix_a_skolem"), z3.Int("ix_b_skolem"), z3.Int("ix_j_skolem")
     smin, smax = mdl.spec("min", mdl.c0), mdl.spec("max", mdl.c0)
     n_listed = 0
@@ -813,7 +897,9 @@ def run_sorted(funcs, timeout, n_rg, m_sel, collapsed="symbolic"):
     return res, (n_listed, n_ret, sink)
 
 
-BOUNDED = [(n, m, c) for (n, m) in ((1, 1), (2, 1), (2, 2), (3, 2)) for c in ((False, False), (True, False), (False, True))]
+BOUNDED = [(2, 1, (True, False)), (2, 1, (False, True)), (1, 1, (False, False)), (2, 2, (False, False)), (2, 1, (False, False)),
+           (3, 2, (False, False)), (1, 1, (True, False)), (1, 1, (False, True)), (2, 2, (True, False)), (2, 2, (False, True)),
+           (3, 2, (True, False)), (3, 2, (False, True))]
 
 
 def check_sorted(ctx, funcs, timeout):
@@ -824,19 +910,24 @@ def check_sorted(ctx, funcs, timeout):
     if n_listed == 0 or n_ret == 0:
         ctx.engine_error(f"sorted_partitioned_columns: listed paths {n_listed}, returning paths {n_ret}")
     bounded = []
-    if any(unb.status(nm) != PROVED for nm in unb.order):
-        # the same contract with every length a small constant: universal facts are expanded, `sat` answers are genuine
-        for k, ms, c in BOUNDED:
-            bounded.append((f"{k} row groups, {ms} selected, collapsed(min,max)={c}", run_sorted(funcs, timeout, k, ms, c)[0]))
+    open_names = {nm for nm in unb.order if unb.status(nm) != PROVED}
+    # the same contract with every length a small constant: universal facts are expanded, `sat` answers are genuine.
+    # Only consulted for obligations the unbounded run left undecided; stops as soon as each of them has a counter-model.
+    for k, ms, c in BOUNDED:
+        if not open_names:
+            break
+        br = run_sorted(funcs, timeout, k, ms, c)[0]
+        bounded.append((f"{k} row groups, {ms} selected, collapsed(min,max)={c}", br))
+        open_names -= {nm for nm in open_names if br.status(nm) == REFUTED}
 
     def outside_ok():
-        o, _ = run_sorted(funcs, timeout, n, m, (False, False))
-        return all(o.status(nm) == PROVED for nm in o.order if "index_in_range" in nm)
+        o = unb.outside
+        return bool(o.order) and all(o.status(nm) == PROVED for nm in o.order)
     known = {nm: (FID_COLLAPSED, outside_ok) for nm in unb.order if "index_in_range" in nm}
     out = merge_and_record(ctx, fq, unb, bounded, known)
     # vacuity: with 2 row groups some path lists the column (the precondition and the listing condition are satisfiable),
     # and a must-fail obligation ("a listed column has min == max in both row groups") is refuted
-    _, (_, _, sink) = run_sorted(funcs, 3000, 2, 2, (False, False))
+    _, (_, _, sink) = run_sorted(funcs, 3000, 2, 2, (False, False), paths_only=True)
     listed = [q for q in sink if any(isinstance(k, tuple) and k[0] == "dict" and any(isinstance(kk, Custom) for kk, _ in its) for k, its in q.ghost.items())]
     if any(solve([*q.pc, *q.axioms], 3000)[0] == REFUTED for q in listed):
         ctx.vacuity["requires_sat"] += 1
